@@ -302,10 +302,8 @@ func vp_C07_member() {
 	nver, _ := vpVerNum(ver)
 	// KF-C07-2: stable versions 8 and 9 do not define knock_restricted, yet a join under it is treated as a restricted join
 	kf2 := c.newMembership == spec.Join && c.selfTarget && c.joinRule == spec.KnockRestricted && (nver == 8 || nver == 9) && ver != "org.matrix.msc3787"
-	// KF-C07-1: a user whose current membership is knock (or an unrecognised value) joining a public room is refused
-	kf1 := c.newMembership == spec.Join && c.selfTarget && c.joinRule == spec.Public && c.oldMembership == spec.Knock
-	vpAssertKF("member-verdict", got == want || either || kf2, "KF-C07-1", kf1)
-	vpAssertKF("member-verdict-kr", got == want || either || kf1, "KF-C07-2", kf2)
+	// (fixed: KF-C07-1 - a user whose current membership is knock joining a public room was refused)
+	vpAssertKF("member-verdict", got == want || either, "KF-C07-2", kf2)
 	vpReach("accepted", got)
 	vpReach("rejected", !got)
 }
